@@ -38,7 +38,9 @@ def gen_case(rng, idx):
         swbs = sorted({c["swb"] for c in espec["electric"]})
         mech, ptis, ids = plants.gen_mech_components(rng, n_lines=int(rng.choice([1, 2])), pti_swb=int(rng.choice(swbs)), force_pti=(kind == "hybrid"))
         spec = dict(espec, type="hybrid" if kind == "hybrid" else "mech_elec", lines=ids)
-        spec["electric"] = [c for c in espec["electric"] if c["kind"] != "drive"] + ptis
+        # a vessel with propellers on shaft lines may have electric thrusters as well: they are propulsors too
+        keep_drives = rng.random() < 0.4
+        spec["electric"] = [c for c in espec["electric"] if c["kind"] != "drive" or keep_drives] + ptis
         if not any(c["kind"] == "other_load" for c in spec["electric"]):       # an electric system has at least one consumer
             spec["electric"].append({"kind": "other_load", "name": "load_x", "swb": swbs[0], "rated": 500.0, "curve": [0.97]})
         if rng.random() < 0.5:       # constant-efficiency propellers: 0 kW delivered is exactly 0 kW on the shaft
@@ -150,7 +152,8 @@ def run_case(ctx, case, model=True):
             continue
         results[name] = res_obs(r)
         es = plant.electric
-        props = list(es.propulsion_drives) if case["kind"] == "electric" else list(plant.mechanical.mechanical_loads)
+        props = list(es.propulsion_drives) + ([] if case["kind"] == "electric" else list(plant.mechanical.mechanical_loads))
+        ctx.count("propulsors", "electric and mechanical" if (es.propulsion_drives and case["kind"] != "electric") else "one kind")
         prepared[name] = {"per_propulsor": [np.asarray(p.power_output, dtype=float) for p in props],
                           "per_aux_load": [np.asarray(o.power_input, dtype=float) for o in es.other_load],
                           "dt": np.asarray(es.time_interval_s, dtype=float)}
